@@ -1,10 +1,31 @@
 """C08 - honest TLCP / TLS 1.2 / TLS 1.3 peers agree on keys and deliver data intact."""
-import os, hashlib
+import os, hashlib, functools
 from hypothesis import strategies as st
 from vlib.core import Prop
 from vlib import build as B
 from vlib.ffi import shim, const
 from vlib import pki, net
+from vlib.ref import sm2 as M
+
+
+@functools.lru_cache(maxsize=256)
+def _aimed_scripts(proto, seed):
+    """entropy scripts (client, server) that make the key-exchange secret start with zero bytes (server-auth handshakes only:
+    there the first draws are hello random and ephemeral key / pre-master secret)"""
+    rc = hashlib.shake_128(b"aim-c%d" % seed).digest(32)
+    rs = hashlib.shake_128(b"aim-s%d" % seed).digest(32)
+    if proto == "tlcp":
+        # client: 28-byte hello random, then the 46 random bytes of the pre-master secret
+        return rc[:28] + b"\0\0" + hashlib.shake_128(b"aim-p%d" % seed).digest(44), b""
+    n = 28 if proto == "tls12" else 32
+    ds = int.from_bytes(hashlib.sha256(b"aim-ds%d" % seed).digest(), "big") % (M.N - 3) + 1
+    Ps = M.pub_of(ds)
+    dc = int.from_bytes(hashlib.sha256(b"aim-dc%d" % seed).digest(), "big") % (M.N - 3) + 1
+    for _ in range(4000):
+        if M.mul(dc, Ps)[0] >> 248 == 0:
+            break
+        dc = dc % (M.N - 3) + 1
+    return rc[:n] + dc.to_bytes(32, "little"), rs[:n] + ds.to_bytes(32, "little")
 
 P = Prop("C08", "exploration",
          rule="Hypothesis draws (protocol, server-auth/mutual-auth, chain depth 1..3, a program of transfer phases: direction c2s/s2c/both, "
@@ -39,7 +60,9 @@ case_s = st.fixed_dictionaries({
     "proto": st.sampled_from(net.PROTOS), "mutual": st.booleans(), "depth": st.integers(1, 3), "cdepth": st.integers(1, 2),
     "phases": st.lists(phase, min_size=1, max_size=4),
     "frag": st.lists(st.one_of(st.sampled_from([1, 5, 100, 1400, 65536]), st.integers(1, 20000)), min_size=0, max_size=3),
-    "closer": st.sampled_from(["client", "server"]), "seed": st.integers(0, 1 << 30)})
+    "closer": st.sampled_from(["client", "server"]), "seed": st.integers(0, 1 << 30),
+    # aim the key exchange at a boundary: shared ECDHE x coordinate / pre-master secret with leading zero bytes
+    "aim": st.sampled_from(["none", "none", "none", "zero-lead"])})
 
 
 def _data(n, tag):
@@ -70,8 +93,10 @@ def session(case, ctx):
             return n
         cnt[d] += 1
         return frag_list[cnt[d] % len(frag_list)]
-    s = net.Session(ctx.variant, proto, files, client_files=cfiles, mutual=mutual, frag=frag, seed=case["seed"])
-    classes = [proto, "mutual" if mutual else "server-auth", "depth%d" % case["depth"], "frag" if frag_list else "nofrag"]
+    aim = case.get("aim") == "zero-lead" and not mutual
+    cs, ss = _aimed_scripts(proto, case["seed"] % 64) if aim else (b"", b"")
+    s = net.Session(ctx.variant, proto, files, client_files=cfiles, mutual=mutual, frag=frag, seed=case["seed"], client_script=cs, server_script=ss)
+    classes = [proto, "mutual" if mutual else "server-auth", "depth%d" % case["depth"], "frag" if frag_list else "nofrag", "aimed-zero-lead" if aim else "unaimed"]
     try:
         rc, rs = s.start()
         ctx.check(rc[1] == "ok" and rs[1] == "ok", "endpoint set-up failed: client %s server %s" % (rc, rs), "setup")
@@ -142,5 +167,31 @@ def session(case, ctx):
         b.do("close")
         a.result(timeout=20.0)
         ctx.case(nontrivial=wrote > 0, classes=classes, ident=case, sample=case)
+    finally:
+        s.finish()
+
+
+hs_case = st.fixed_dictionaries({"proto": st.sampled_from(net.PROTOS), "mutual": st.booleans(), "seed": st.integers(0, 1 << 40)})
+
+
+@P.sub("handshakes", hs_case, quick=2400, thorough=60000, chunk=60)
+def handshakes(case, ctx):
+    """many handshakes on different entropy streams (no data): both complete and agree on the keys, so rare value classes of the key exchange are met"""
+    proto, mutual = case["proto"], case["mutual"]
+    shim().freeze_time(pki.T0)
+    ch, files = _pki(proto, 1, "server")
+    cfiles = _pki(proto, 0, "client")[1] if mutual else None
+    s = net.Session(ctx.variant, proto, files, client_files=cfiles, mutual=mutual, seed=case["seed"])
+    try:
+        rc, rs = s.start()
+        hc, hs = s.handshake()
+        if hc[0] == "timeout" or hs[0] == "timeout":
+            ctx.note("inconclusive-timeout"); return
+        ctx.case(nontrivial=True, classes=[proto, "mutual" if mutual else "server-auth"], ident=case, sample=case)
+        ctx.check(hc[1] == 1 and hs[1] == 1, "%s %s handshake between honest peers failed (entropy stream %d): client ret=%s server ret=%s" %
+                  (proto, "mutual-auth" if mutual else "server-auth", case["seed"], hc[1], hs[1]), "handshake/%s/%s" % (proto, "mutual" if mutual else "server-auth"))
+        fields = ("client_write_key", "server_write_key", "client_write_iv", "server_write_iv") if proto == "tls13" else ("master_secret", "key_block")
+        for f in fields:
+            ctx.check(s.client.field(f) == s.server.field(f), "%s differs between the peers" % f, "agree/" + f)
     finally:
         s.finish()
